@@ -138,6 +138,18 @@ def check_ptseg(ctx, case):
     ctx.count("ptseg_judged")
     ctx.count(f"ptseg_class:{case['cls']}")
     rd, rt, rq = rg.gc_point_segment(p, a, b)
+    import struct
+    if int.from_bytes(struct.pack("d", float(p[0]) + float(p[1])), "little") % 4 == 0:
+        # the answer to a default call may not depend on what was asked before: a quarter of the judged calls is preceded
+        # by calls for the SAME point and segment with other values of the optional arguments
+        ctx.count("calls_preceded_by_other_options")
+        try:
+            if int(abs(p[0]) * 1e6) % 2:
+                dl.distance_point_to_segment(p, a, b, constrain=False)
+            else:
+                dl.distance_point_to_segment(p, a, b, delta=0.25)
+        except Exception:
+            pass
     try:
         d, pi, t = dl.distance_point_to_segment(p, a, b)
         pi_p, t_p = dl.project(a, b, p)
